@@ -406,7 +406,7 @@ pub fn explore_alphabet(w: &World, r: usize, cfg: &L1Cfg, alpha: Vec<(String, In
                 }
             };
             for (desc, input) in &alpha {
-                let pol = Policy { crash: None, sync: sync_pool.clone() };
+                let pol = Policy { shutdown: false, crash: None, sync: sync_pool.clone() };
                 let out = bftsim::step(w, r, &node.local, input, &pol);
                 let n_writes = out.set_state_calls;
                 let accepted = matches!(out.outcome, Some(Ok(())));
@@ -414,14 +414,21 @@ pub fn explore_alphabet(w: &World, r: usize, cfg: &L1Cfg, alpha: Vec<(String, In
                 if cfg.crashes && accepted {
                     for at in 0..n_writes {
                         for applied in [false, true] {
-                            let pol = Policy { crash: Some(Crash { at, applied, fail: false }), sync: sync_pool.clone() };
+                            let pol = Policy { shutdown: false, crash: Some(Crash { at, applied, fail: false }), sync: sync_pool.clone() };
                             let out = bftsim::step(w, r, &node.local, input, &pol);
                             handle(&mut e, format!("{desc} -- CRASH at durable write #{at} ({})", if applied { "write applied" } else { "write lost" }), InputKind::Step(input.clone(), pol), out);
                         }
                         // the write fails with an I/O error instead (the process is not killed)
-                        let pol = Policy { crash: Some(Crash { at, applied: false, fail: true }), sync: sync_pool.clone() };
+                        let pol = Policy { shutdown: false, crash: Some(Crash { at, applied: false, fail: true }), sync: sync_pool.clone() };
                         let out = bftsim::step(w, r, &node.local, input, &pol);
                         handle(&mut e, format!("{desc} -- WRITE ERROR at durable write #{at}"), InputKind::Step(input.clone(), pol), out);
+                    }
+                    if n_writes > 0 {
+                        // the node shuts down while this input is being handled: the handler runs under a
+                        // cancelled context, whatever it hands to the network leaves the node, the process exits
+                        let pol = Policy { shutdown: true, crash: None, sync: sync_pool.clone() };
+                        let out = bftsim::step(w, r, &node.local, input, &pol);
+                        handle(&mut e, format!("{desc} -- SHUTDOWN while handling (context cancelled)"), InputKind::Step(input.clone(), pol), out);
                     }
                 }
             }
@@ -538,6 +545,9 @@ pub fn replay_path_with(w: &World, r: usize, cfg: &L1Cfg, path: &[String], check
             local = bftsim::real_restart(w, r, &local);
             continue;
         }
+        let shutdown = d.ends_with(" -- SHUTDOWN while handling (context cancelled)");
+        let d_stripped = d.trim_end_matches(" -- SHUTDOWN while handling (context cancelled)").to_string();
+        let d = &d_stripped;
         let (base, crash) = if let Some((b, rest)) = d.split_once(" -- WRITE ERROR at durable write #") {
             (b.to_string(), Some(Crash { at: rest.trim().parse().unwrap_or(0), applied: false, fail: true }))
         } else { match d.split_once(" -- CRASH at durable write #") {
@@ -561,7 +571,7 @@ pub fn replay_path_with(w: &World, r: usize, cfg: &L1Cfg, path: &[String], check
             }
         };
         let input = &found.1;
-        let pol = Policy { crash, sync: sync_pool.clone() };
+        let pol = Policy { shutdown, crash, sync: sync_pool.clone() };
         let out = bftsim::step(w, r, &local, input, &pol);
         {
             let node = Node { local: local.clone(), log: log.clone(), depth: k as u32, path: vec![] };
